@@ -37,7 +37,8 @@ type c22P struct {
 	ds   []c22D
 }
 type c22Case struct {
-	ifsSet bool
+	rawWord string // search leg only: the word as source text
+	ifsSet  bool
 	ifs    string
 	params []string
 	parts  []c22P
@@ -178,7 +179,13 @@ func c22Word(parts []c22P, shellStyle bool) (string, []string) {
 	for _, p := range parts {
 		switch p.kind {
 		case 'L':
-			sb.WriteString(p.val)
+			if p.val == "" && !shellStyle {
+				// an empty literal cannot be written in source (brace expansion makes them: {,x});
+				// the in-process tie patches this placeholder to "" in the parsed word
+				sb.WriteString(c22EmptyLit)
+			} else {
+				sb.WriteString(p.val)
+			}
 		case 'S':
 			sb.WriteString("'" + p.val + "'")
 		case 'E', 'C':
@@ -208,6 +215,8 @@ func c22Word(parts []c22P, shellStyle bool) (string, []string) {
 }
 
 // ---- in-process expansion ----
+
+const c22EmptyLit = "C22EMPTYLIT"
 
 type c22Env map[string]expand.Variable
 
@@ -242,6 +251,11 @@ func c22Expand(cs c22Case, literal bool) string {
 		if !ok || len(call.Args) != 2 || f.Stmts[0].Redirs != nil {
 			out = "parse-shape"
 			return
+		}
+		for _, wp := range call.Args[1].Parts {
+			if l, ok := wp.(*syntax.Lit); ok && l.Value == c22EmptyLit {
+				l.Value = ""
+			}
 		}
 		env := c22Env{}
 		for i, v := range vars {
@@ -328,6 +342,14 @@ func c22Excluded(cs c22Case) (bool, string) {
 			if at && len(p.ds) != 1 {
 				return true, "at-in-mixed-dquotes"
 			}
+			if at {
+				hasSplit = true // "$@" breaks the word: not a `plain` part
+			}
+			for _, d := range p.ds {
+				if d.kind == 'l' && strings.ContainsRune(d.val, 0) {
+					return true, "nul-in-literal"
+				}
+			}
 		case 'E', 'C', 'A', 'T':
 			hasSplit = true
 		}
@@ -398,6 +420,9 @@ func c22SQ(s string) string { return "'" + strings.ReplaceAll(s, "'", `'"'"'`) +
 
 func c22Script(cs c22Case) string {
 	src, vars := c22Word(cs.parts, true)
+	if cs.rawWord != "" {
+		src = cs.rawWord
+	}
 	var sb strings.Builder
 	sb.WriteString("set -f\n")
 	sb.WriteString(`p() { printf '%s:' "$#"; for a; do printf '<%s>' "$a"; done; }` + "\n")
@@ -896,6 +921,11 @@ func c22(c *Ctx) {
 	var shCases []shCase
 	for _, l := range c.CorpusLines() {
 		f := strings.Fields(l)
+		if len(f) == 2 && f[0] == "raw" {
+			// a word given as source text (for what the part notation cannot say, e.g. braces)
+			shCases = append(shCases, shCase{c22Case{rawWord: unhx(f[1])}, l, false})
+			continue
+		}
 		if len(f) < 3 {
 			continue
 		}
